@@ -211,3 +211,110 @@ instance : StarRing GI where
   star_add := by intro a b; ext <;> simp [GI.conj]; ring
 
 end SigpyVerif.C08
+
+/-! ### the generated loop nest: what lands in one slice of the accumulated array -/
+namespace SigpyVerif.C08
+open SigpyVerif
+
+theorem sum_range_ite_eq {β : Type} [AddCommMonoid β] (n x : Nat) (hx : x < n) (g : Nat → β) :
+    ∑ i ∈ Finset.range n, (if ((i : Int) = (x : Int)) then g i else 0) = g x := by
+  rw [Finset.sum_eq_single_of_mem x (Finset.mem_range.mpr hx)]
+  · simp
+  · intro i _ hi
+    rw [if_neg]
+    exact_mod_cast hi
+
+/-- `X[k, j] += T(k, j, i)`: slice `(b, o)` receives `Σ_i T(b, o, i)` -/
+theorem loopSum_B_co {β : Type} [AddCommMonoid β] (B co ci b o : Nat) (hb : b < B) (ho : o < co)
+    (T : Int → Int → Int → β) :
+    loopSum B co ci (Gen.ConvDim.B, Gen.ConvDim.co) b o T = ∑ c ∈ Finset.range ci, T b o c := by
+  unfold loopSum pick
+  simp only [sumTo_eq_sum]
+  have h1 : ∀ x ∈ Finset.range B, (∑ y ∈ Finset.range co, ∑ c ∈ Finset.range ci,
+      if ((x : Int) = (b : Int) ∧ (y : Int) = (o : Int)) then T x y c else 0) =
+      if ((x : Int) = (b : Int)) then (∑ y ∈ Finset.range co,
+        if ((y : Int) = (o : Int)) then ∑ c ∈ Finset.range ci, T x y c else 0) else 0 := by
+    intro x _
+    by_cases hx : (x : Int) = (b : Int)
+    · simp only [hx, true_and, if_true]
+      apply Finset.sum_congr rfl
+      intro y _
+      by_cases hy : (y : Int) = (o : Int) <;> simp [hy]
+    · simp [hx]
+  rw [Finset.sum_congr rfl h1, sum_range_ite_eq B b hb, sum_range_ite_eq co o ho]
+
+/-- `X[k, i] += T(k, j, i)`: slice `(b, c)` receives `Σ_j T(b, j, c)` -/
+theorem loopSum_B_ci {β : Type} [AddCommMonoid β] (B co ci b c : Nat) (hb : b < B) (hc : c < ci)
+    (T : Int → Int → Int → β) :
+    loopSum B co ci (Gen.ConvDim.B, Gen.ConvDim.ci) b c T = ∑ o ∈ Finset.range co, T b o c := by
+  unfold loopSum pick
+  simp only [sumTo_eq_sum]
+  have h1 : ∀ x ∈ Finset.range B, (∑ y ∈ Finset.range co, ∑ z ∈ Finset.range ci,
+      if ((x : Int) = (b : Int) ∧ (z : Int) = (c : Int)) then T x y z else 0) =
+      if ((x : Int) = (b : Int)) then (∑ y ∈ Finset.range co, T x y c) else 0 := by
+    intro x _
+    by_cases hx : (x : Int) = (b : Int)
+    · simp only [hx, true_and, if_true]
+      apply Finset.sum_congr rfl
+      intro y _
+      exact sum_range_ite_eq ci c hc (fun z => T b y z)
+    · simp [hx]
+  rw [Finset.sum_congr rfl h1, sum_range_ite_eq B b hb]
+
+/-- `X[j, i] += T(k, j, i)`: slice `(o, c)` receives `Σ_k T(k, o, c)` -/
+theorem loopSum_co_ci {β : Type} [AddCommMonoid β] (B co ci o c : Nat) (ho : o < co) (hc : c < ci)
+    (T : Int → Int → Int → β) :
+    loopSum B co ci (Gen.ConvDim.co, Gen.ConvDim.ci) o c T = ∑ b ∈ Finset.range B, T b o c := by
+  unfold loopSum pick
+  simp only [sumTo_eq_sum]
+  apply Finset.sum_congr rfl
+  intro x _
+  have h1 : ∀ y ∈ Finset.range co, (∑ z ∈ Finset.range ci,
+      if ((y : Int) = (o : Int) ∧ (z : Int) = (c : Int)) then T x y z else 0) =
+      if ((y : Int) = (o : Int)) then T x y c else 0 := by
+    intro y _
+    by_cases hy : (y : Int) = (o : Int)
+    · simp only [hy, true_and, if_true]
+      exact sum_range_ite_eq ci c hc (fun z => T x o z)
+    · simp [hy]
+  rw [Finset.sum_congr rfl h1, sum_range_ite_eq co o ho]
+
+end SigpyVerif.C08
+
+/-! ### Python indexing / slicing from the end of a list -/
+namespace SigpyVerif.C08
+open SigpyVerif
+
+theorem pyFrom_suffix (pre suf : List Int) (h : 1 ≤ suf.length) :
+    pyFrom (pre ++ suf) (-(suf.length : Int)) = suf := by
+  unfold pyFrom pyBound pyMax
+  have h1 : (-(suf.length : Int)) < 0 := by omega
+  simp only [h1, if_true, List.length_append]
+  have : (if (-(suf.length : Int) + ((pre.length + suf.length : Nat) : Int)) ≥ 0
+      then (-(suf.length : Int) + ((pre.length + suf.length : Nat) : Int)) else 0).toNat = pre.length := by
+    split_ifs <;> omega
+  rw [this]
+  exact List.drop_left
+
+theorem pyUpto_prefix (pre suf : List Int) (h : 1 ≤ suf.length) :
+    pyUpto (pre ++ suf) (-(suf.length : Int)) = pre := by
+  unfold pyUpto pyBound pyMax
+  have h1 : (-(suf.length : Int)) < 0 := by omega
+  simp only [h1, if_true, List.length_append]
+  have : (if (-(suf.length : Int) + ((pre.length + suf.length : Nat) : Int)) ≥ 0
+      then (-(suf.length : Int) + ((pre.length + suf.length : Nat) : Int)) else 0).toNat = pre.length := by
+    split_ifs <;> omega
+  rw [this]
+  exact List.take_left
+
+theorem pyGet_from_end (pre : List Int) (x : Int) (suf : List Int) :
+    pyGet (pre ++ x :: suf) (-(suf.length : Int) - 1) = some x := by
+  unfold pyGet
+  have h1 : (-(suf.length : Int) - 1) < 0 := by omega
+  simp only [h1, if_true, List.length_append, List.length_cons]
+  have e : (-(suf.length : Int) - 1 + ((pre.length + (suf.length + 1) : Nat) : Int)) = (pre.length : Int) := by
+    push_cast; ring
+  rw [e]
+  simp
+
+end SigpyVerif.C08
